@@ -917,13 +917,46 @@ def rule_consume(prog, res, fname, mode, rule="R-CONSUME"):
                                 return True
                     return False
                 if not paths.edge_dominated_correlated(f, pos, exhausted):
-                    problems.append(("exhaust", "the whole region is released although the walk over its frames can end early: the remaining frames are skipped"))
+                    walks = any(c_.get("fn") in ITER_NEXT for b_, i_, s_ in f.all_stmts() for c_ in ir.calls_in(s_))
+                    problems.append(("exhaust", "the whole region is released although the walk over its frames can end early: the remaining frames are skipped" if walks else
+                                     "the mapped region is released whole without any walk over its frames: whatever the producer had committed by then is thrown away unprocessed"))
                 detail += "; reached only through the exhausted edge of the frame walk"
         for tag, msg in problems:
             res.fail(rule, inst, key + "|" + tag, f.loc(s), "%s: %s" % (fname, msg))
         if not problems:
             res.oblige(rule, inst, True, detail, f.loc(s))
         n += 1
+    return n
+
+
+def rule_consume_file(prog, res, anchor, mode, rule="R-CONSUME"):
+    """R-CONSUME for every function of the anchor's file that releases reader
+    bytes, not only the anchor: a second release site elsewhere in the worker
+    (a 'discard what is there on entry' helper) throws frames away just as a
+    wrong count in the main pass does.  A function that maps and releases is
+    judged on its own; a helper that only releases is judged in its callers
+    (rule_consume evaluates one level of static helpers)."""
+    f0 = prog.func(anchor)
+    todo = [anchor]
+    fns = [g for v in prog.funcs.values() for g in v if g.file == f0.file and g.blocks]
+    def direct(g, name, nonzero=False):
+        return [c for b, i, s_ in g.all_stmts() for c in ir.calls_in(s_) if c.get("fn") == name and
+                (not nonzero or (len(c.get("args", [])) == 3 and not ir.is_const(c["args"][2], 0)))]
+    for g in fns:
+        if g.name == anchor or not direct(g, "channel_read_unmap", True):
+            continue
+        if direct(g, "channel_read_map"):
+            todo.append(g.name)
+        else:
+            callers = [h.name for h in fns if h is not g and direct(h, g.name)]
+            todo += callers or [g.name]
+    n = 0
+    done = set()
+    for name in todo:
+        if name in done:
+            continue
+        done.add(name)
+        n += rule_consume(prog, res, name, mode, rule)
     return n
 
 
